@@ -32,7 +32,7 @@ META = {
     },
 }
 CASES = {'quick': 1000, 'thorough': 50000}
-SECONDS = {'quick': 60, 'thorough': 1500}
+SECONDS = {'quick': 60, 'thorough': 600}
 
 
 def mutables(x, path, out):
